@@ -39,7 +39,7 @@ pub enum V {
     Text(String),
     Int(i32),
     Uuid(uuid::Uuid),
-    Inet(Ipv4Addr),
+    Inet(std::net::IpAddr),
     Bool(bool),
     Strs(Vec<String>),
     Map(Vec<(String, String)>),
@@ -52,7 +52,8 @@ impl V {
             V::Text(s) => Some(s.as_bytes().to_vec()),
             V::Int(i) => Some(i.to_be_bytes().to_vec()),
             V::Uuid(u) => Some(u.as_bytes().to_vec()),
-            V::Inet(a) => Some(a.octets().to_vec()),
+            V::Inet(std::net::IpAddr::V4(a)) => Some(a.octets().to_vec()),
+            V::Inet(std::net::IpAddr::V6(a)) => Some(a.octets().to_vec()),
             V::Bool(b) => Some(vec![*b as u8]),
             V::Strs(l) => {
                 let mut b = Vec::new();
@@ -188,9 +189,9 @@ fn table_rows(cfg: &MockConfig, node: usize, ks: &str, table: &str) -> Vec<Vec<V
             Some(n) => vec![vec![
                 text("local"),
                 V::Uuid(n.host_id),
-                V::Inet(n.ip),
-                V::Inet(n.ip),
-                V::Inet(n.ip),
+                V::Inet(super::node_addr(node, n.ip)),
+                V::Inet(super::node_addr(node, n.ip)),
+                V::Inet(super::node_addr(node, n.ip)),
                 text(&n.dc),
                 text(&n.rack),
                 tokens(n),
@@ -208,8 +209,8 @@ fn table_rows(cfg: &MockConfig, node: usize, ks: &str, table: &str) -> Vec<Vec<V
             .iter()
             .enumerate()
             .filter(|(i, _)| *i != node && (super::HIDDEN_NODES.load(std::sync::atomic::Ordering::SeqCst) >> *i) & 1 == 0)
-            .map(|(_, n)| {
-                vec![V::Inet(n.ip), V::Uuid(n.host_id), V::Inet(n.ip), V::Null, text(&n.dc), text(&n.rack), tokens(n), text("3.0.8"), V::Uuid(SCHEMA_VERSION)]
+            .map(|(i, n)| {
+                vec![V::Inet(super::node_addr(i, n.ip)), V::Uuid(n.host_id), V::Inet(super::node_addr(i, n.ip)), V::Null, text(&n.dc), text(&n.rack), tokens(n), text("3.0.8"), V::Uuid(SCHEMA_VERSION)]
             })
             .collect(),
         ("system_schema", "keyspaces") => cfg.keyspaces.iter().map(|k| vec![text(&k.name), V::Map(k.replication.clone()), V::Bool(true)]).collect(),
